@@ -145,6 +145,14 @@ Definition check_request (adjust : bool) (b : pb) (p : Q) : bool :=
   else if adjust then negb (Qltb (el b) p && Qltb p (eu b))
   else (Qle_bool (il b) p && Qle_bool p (el b)) || (Qle_bool (eu b) p && Qle_bool p (iu b)).
 
+(* BatteryManager._get_distribution once it has pairs (the Error branches aside): the request is
+   checked against the enforced bounds and then distributed; whatever the distribution could not
+   place is REPORTED as remaining_power (`rem`), it never turns the answer into OutOfBounds *)
+Inductive dkind := DOutOfBounds | DDistributed (rem : Q).
+Definition get_distribution_kind (adjust : bool) (b : pb) (p rem : Q) : dkind :=
+  if check_request adjust b p then DDistributed rem else DOutOfBounds.
+Definition dist_kind_ok (k : dkind) : bool := match k with DDistributed _ => true | DOutOfBounds => false end.
+
 (* AvailabilityRatio.min_power of one pair, consume (p > 0) and supply (p < 0) direction:
    max(excl_bounds[battery], min(excl_bounds[inverter] ...)) with
    _inclusion_exclusion_bounds' sign flip for supply *)
